@@ -863,6 +863,25 @@ pub fn run_c13(ctx: &mut Ctx, shard: usize, nshards: usize) {
         bases.push(Cfg::Fb { kind: FbKind::Payload, sender: 1, media: 2, fci: Fci::Fir((0..(words / 2) as u32).map(|i| (i, 1)).collect()), padding: 0 });
         bases.push(Cfg::Fb { kind: FbKind::Payload, sender: 1, media: 2, fci: Fci::Rpsi { pt: 1, bits: vec![0xcc; 4 * words - 2], overrun: 0 }, padding: 0 });
     }
+    // images beyond 65 535 bytes (the offset of the padding count no longer fits 16 bits): three paddings each
+    if ctx.scale >= 0.5 {
+        for (k, mut c) in crate::mon::writers::large_cfgs().into_iter().enumerate() {
+            if k % nshards != shard || c.is_compound() {
+                continue;
+            }
+            c.set_padding(0);
+            if !crate::mon::roundtrip::in_domain(&c) {
+                continue;
+            }
+            let Some(b) = enc::enc(&c) else { continue };
+            for p in [4u8, 8, 252] {
+                if b.len() + p as usize <= enc::MAX_PACKET_BYTES {
+                    check_c13(ctx, &b, p);
+                    ctx.class("c13:base>=64KiB");
+                }
+            }
+        }
+    }
     for c in &bases {
         let Some(b) = enc::enc(c) else { continue };
         for p in (4..=252u16).step_by(4) {
